@@ -29,8 +29,8 @@ static void creds_init(void) {
 	if (ck_ready) return; ck_ready = 1;
 	for (int i = 0; i < 12; i++) { uint8_t d[32]; for (int j = 0; j < 32; j++) d[j] = (uint8_t)(0x21 + 7 * i + 13 * j); d[0] &= 0x7f; sm2_z256_t z; sm2_z256_from_bytes(z, d); if (sm2_key_set_private_key(&CK[i], z) != 1) abort(); }
 }
-static void spec_ca(cert_spec *s, const char *cn, int pathlen) { memset(s, 0, sizeof *s); s->version = X509_version_v3; s->bc = 2; s->pathlen = pathlen; s->ku = X509_KU_KEY_CERT_SIGN | X509_KU_CRL_SIGN; s->ku_crit = 1; s->nb = VENV_NOW - 86400; s->na = VENV_NOW + 365 * 86400; strncpy(s->cn, cn, sizeof s->cn - 1); s->serial_len = 8; for (int i = 0; i < 8; i++) s->serial[i] = (uint8_t)(cn[0] + i + 1); }
-static void spec_leaf(cert_spec *s, const char *cn, int ku) { memset(s, 0, sizeof *s); s->version = X509_version_v3; s->bc = 0; s->pathlen = -1; s->ku = ku; s->ku_crit = 1; s->nb = VENV_NOW - 86400; s->na = VENV_NOW + 365 * 86400; strncpy(s->cn, cn, sizeof s->cn - 1); s->serial_len = 8; for (int i = 0; i < 8; i++) s->serial[i] = (uint8_t)(cn[0] + 2 * i + 1); }
+static void spec_ca(cert_spec *s, const char *cn, int pathlen) { memset(s, 0, sizeof *s); s->version = X509_version_v3; s->bc = 2; s->pathlen = pathlen; s->ku = X509_KU_KEY_CERT_SIGN | X509_KU_CRL_SIGN; s->ku_crit = 1; s->nb = VENV_NOW - 86400; s->na = VENV_NOW + 365 * 86400; strncpy(s->cn, cn, sizeof s->cn - 1); s->serial_len = 8; for (int i = 0; i < 8; i++) s->serial[i] = (uint8_t)(cn[0] + 3 * cn[1] + 5 * (cn[1] ? cn[2] : 0) + i + 1); s->serial[0] &= 0x7f; s->serial[0] |= 1; }
+static void spec_leaf(cert_spec *s, const char *cn, int ku) { memset(s, 0, sizeof *s); s->version = X509_version_v3; s->bc = 0; s->pathlen = -1; s->ku = ku; s->ku_crit = 1; s->nb = VENV_NOW - 86400; s->na = VENV_NOW + 365 * 86400; strncpy(s->cn, cn, sizeof s->cn - 1); s->serial_len = 8; for (int i = 0; i < 8; i++) s->serial[i] = (uint8_t)(cn[0] + 3 * cn[1] + 5 * (cn[1] ? cn[2] : 0) + 2 * i + 1); s->serial[0] &= 0x7f; s->serial[0] |= 1; }
 static int make_name(uint8_t *name, size_t *nl, const char *cn) { *nl = 0; return x509_name_set(name, nl, 128, "CN", NULL, NULL, NULL, NULL, cn); }
 /* returns 1; cert DER appended at *out */
 static int make_cert(const cert_spec *s, const SM2_KEY *subject_key, const SM2_KEY *issuer_key, const char *issuer_cn, uint8_t *out, size_t *outlen) {
